@@ -503,8 +503,15 @@ class StateTransactionBase(_TransactionBase):
             if not self._is_correct_state_type(entity.state):
                 msg = f'Wrong data type in transaction! {self.__class__.__name__}, {entity.state}'
                 raise ApiUsageError(msg)
-        for ent in entities:
-            self.write_entity(ent, adjust_version_counter)
+        saved_updates = dict(self._state_updates)
+        try:
+            for ent in entities:
+                self.write_entity(ent, adjust_version_counter)
+        except Exception:
+            # a rejected entity (e.g. its descriptor does not exist any more): none of the entities is written
+            self._state_updates.clear()
+            self._state_updates.update(saved_updates)
+            raise
 
     @staticmethod
     def _is_correct_state_type(state: AbstractStateProtocol) -> bool:  # noqa: ARG004
